@@ -6,6 +6,12 @@ CHECKS={
  "C18": dict(cat="exploration", tech="bounded exhaustive input enumeration against the real code (all strings over a 10-atom alphabet up to length 5/7), property clauses as oracle",
    text="Every string over a 10-atom alphabet chosen for the metric code's corner cases (LF, ASCII, multi-byte, lone combining, double-width, zero-width, ZWJ emoji sequence, invalid byte, TAB) up to length 5 (quick) or 7 (thorough) is enumerated completely and run through length.*, tabular.NewCell and a one-cell text-table render; the statement's four clauses are checked on each. Exhaustive within the bound, no sampling.",
    note="Trusts go-runewidth as the definition of display width (the property says so); strings beyond the bound/alphabet not covered; environment pinned to RUNEWIDTH_EASTASIAN=0 LC_ALL=C.", ref="DESIGN.md §2 C18"),
+ "C02": dict(cat="model_checking", tech="bounded exhaustive exploration of build-operation sequences on the real table (stateless DFS, every sequence replayed from the empty table), step-by-step comparison with a reference model",
+   text="All sequences of the table-building operations (header/row adds with 0,1,2,3,11 cells, separators, AppendNewRow, detached rows built before attach, Row.Add before AND after attach, Add on separator rows, mutation of the AllRows copy) up to depth 5 (quick) / 6-7 (thorough) are executed against the real ATable; after every step NRows, NColumns, AllRows order/identity, Headers, CellAt over the whole index rectangle incl. out-of-range, Cell/Row Location and Column(n) existence are compared with a 15-line reference model. Exhaustive within the depth bound.",
+   note="Rows attached at most once; narrower re-header may keep the larger column count (statement silent); depth bound.", ref="DESIGN.md §2 C02"),
+ "C09": dict(cat="model_checking", tech="bounded exhaustive exploration of build-operation sequences; after every prefix every renderer/style/entry point is executed under recover()",
+   text="All build sequences over the table-building alphabet with cells drawn from a pool of text-like items (empty, nil, multi-line, declared height/width disagreeing with the text, negative sizes) to depth 3-4 (quick) / 4-6 (thorough), plus anomalous suffixes after every prefix of a long regular build; after each, ~28 render targets (5 renderers via wrapper method, package function and auto style; every registered decoration, custom, unknown) run Render and RenderTo. Oracle: no panic; error implies empty text; Render and RenderTo agree on failure.",
+   note="Text-like items only; the quantifier's 'random longer sequences' are replaced by systematic long families (no sampling); output content is judged by C03-C08.", ref="DESIGN.md §2 C09"),
 }
 PENDING_REASON="check not built yet in this session (planned: bounded exhaustive exploration, see DESIGN.md §2); not claimed until its harness exists"
 m={"version":1,
